@@ -2,6 +2,7 @@ import Fzf.Lemmas.Pattern
 import Fzf.Spec.Query
 import Fzf.Lemmas.ParseRender
 import Fzf.Lemmas.FilterOnce
+import Fzf.Lemmas.TermDecides
 /-
 C01 — filtering is exact: the lines shown are the lines satisfying the query.
 Property theorems only.
@@ -85,6 +86,19 @@ theorem C01_filter_exact (o : Filter.Opts) (slabCap : Nat) (query : Str) (lines 
       ∃ m, matchItem o.cfg (buildPattern o.cfg o.fuzzy o.v2 o.extended o.caseMode o.normalize (Filter.dirAndPos o.criteria).1 false query)
         (Filter.inputTokens o it) (if (!o.sort && !o.tac) then false else (Filter.dirAndPos o.criteria).2) slabCap = .ok (some m) :=
   Filter.runIdx_exact o slabCap query lines out h hpat
+
+/-- **Exact terms are decided exactly** (`'t`, every term under --exact, every negated term `!t`):
+    in fzf's three schemes, over any list of searched fields (the whole line, or the fields --nth
+    selects), the term is reported to match if and only if its text occurs, character by
+    character after case folding / normalisation, in one of the fields — and the evaluation
+    always returns. No matching line is dropped (the ASCII pre-filter, the restart after a
+    partial match and the loop bound lose nothing) and no other line is shown. -/
+theorem C01_exact_term_decides (cfg : Cfg) (hs : RealScheme cfg) (hnorm : ∀ c, c < 128 → cfg.norm c = c)
+    (v2 : Bool) (cs norm fwd : Bool) (p : Array Nat) (hm : 0 < p.size) (wp : Bool) (cap : Nat) (toks : List Tok)
+    (htok : ∀ t ∈ toks, t.isBytes = true → ∀ c ∈ t.text.toList, c < 128) :
+    ∃ x, iter cfg v2 .exact toks cs norm fwd p wp cap = .ok x ∧
+      (x.isSome = true ↔ ∃ t ∈ toks, OccursIn cfg cs norm p t) :=
+  exact_term_decides cfg hs hnorm v2 cs norm fwd p hm wp cap toks htok
 
 /- The documented syntax, on concrete queries (kernel-evaluated; `U` = ASCII-only oracle). -/
 def asciiU : Unicode := ⟨fun c => if 65 ≤ c ∧ c ≤ 90 then c + 32 else c, fun c => c == 32 || (9 ≤ c && c ≤ 13), fun _ => 1⟩
